@@ -122,6 +122,12 @@ type fakeSMTP struct {
 	mu   sync.Mutex
 	msgs []string
 	jit  func()
+	// stall: a relay that is slow for one recipient — the dialogue of a message to stallRcpt is held after
+	// RCPT until release is closed; stalled is closed when that happens
+	stallRcpt string
+	stalled   chan struct{}
+	release   chan struct{}
+	stallOnce sync.Once
 }
 
 func newFakeSMTP(jit func()) (*fakeSMTP, error) {
@@ -157,6 +163,10 @@ func (f *fakeSMTP) serve(c net.Conn) {
 		case strings.HasPrefix(cmd, "EHLO"), strings.HasPrefix(cmd, "HELO"):
 			fmt.Fprintf(c, "250 fake\r\n")
 		case strings.HasPrefix(cmd, "MAIL"), strings.HasPrefix(cmd, "RCPT"):
+			if f.stallRcpt != "" && strings.HasPrefix(cmd, "RCPT") && strings.Contains(cmd, strings.ToUpper(f.stallRcpt)) {
+				f.stallOnce.Do(func() { close(f.stalled) })
+				<-f.release
+			}
 			fmt.Fprintf(c, "250 ok\r\n")
 		case cmd == "DATA":
 			fmt.Fprintf(c, "354 go\r\n")
@@ -844,7 +854,82 @@ func rotationBurst(seed int64, G, M int) (string, int, error) {
 	return "", len(all), nil
 }
 
+// smtpStallProbe: "one client's slow mail is not another client's problem". The relay holds the dialogue of
+// the mail to account A; while it is held, client B asks for a recovery mail. Either B's mail reaches the
+// relay (held), or — sampled from the goroutine dump, several times in a row — B's sender sits in
+// sync.(*Mutex).Lock below defaults.SMTPMailer.Send while A's sits in net/smtp below the same function: B is
+// waiting for a lock that A holds across its network dialogue (violated). Anything else is inconclusive.
+func smtpStallProbe(seed int64) (verdict string, detail string) {
+	srv, err := newC20Server(seed, true, false, false)
+	if err != nil {
+		return "inconclusive", err.Error()
+	}
+	defer srv.close()
+	slow, fast := "slow@site.test", "fast@site.test"
+	for _, p := range []string{slow, fast} {
+		srv.store.Put(&world.User{PID: p, Email: p, Password: sim.Hash4("St4ll!passw"), Confirmed: true})
+	}
+	srv.smtp.stallRcpt, srv.smtp.stalled, srv.smtp.release = slow, make(chan struct{}), make(chan struct{})
+	defer close(srv.smtp.release)
+	post := func(pid string) {
+		hc := &http.Client{CheckRedirect: func(*http.Request, []*http.Request) error { return http.ErrUseLastResponse }, Timeout: 30 * time.Second}
+		req, _ := http.NewRequest("POST", srv.srv.URL+"/auth/recover", strings.NewReader(url.Values{"email": {pid}}.Encode()))
+		req.Header.Set("Content-Type", "application/x-www-form-urlencoded")
+		if resp, err := hc.Do(req); err == nil {
+			io.Copy(io.Discard, resp.Body)
+			resp.Body.Close()
+		}
+	}
+	post(slow)
+	select {
+	case <-srv.smtp.stalled:
+	case <-time.After(20 * time.Second):
+		return "inconclusive", "the relay never saw the mail it was to hold"
+	}
+	post(fast)
+	blockedInARow := 0
+	buf := make([]byte, 1<<20)
+	for i := 0; i < 400; i++ {
+		if strings.Contains(srv.smtp.all(), "To: "+fast) {
+			return "held", ""
+		}
+		dump := string(buf[:runtime.Stack(buf, true)])
+		waiting, talking := false, false
+		for _, g := range strings.Split(dump, "\n\n") {
+			if !strings.Contains(g, "defaults.SMTPMailer.Send") && !strings.Contains(g, "defaults.(*SMTPMailer).Send") {
+				continue
+			}
+			if strings.Contains(g, "sync.(*Mutex).Lock") {
+				waiting = true
+			} else if strings.Contains(g, "net/smtp.") {
+				talking = true
+			}
+		}
+		if waiting && talking {
+			if blockedInARow++; blockedInARow >= 25 {
+				return "violated", "25 consecutive goroutine dumps (10 ms apart) show one mail sender in sync.(*Mutex).Lock below defaults.SMTPMailer.Send while another sits in net/smtp below the same function, and the second client's mail has not reached the relay"
+			}
+		} else {
+			blockedInARow = 0
+		}
+		time.Sleep(10 * time.Millisecond)
+	}
+	return "inconclusive", "the second client's mail neither arrived nor was its sender found waiting for a lock"
+}
+
 func c20Unit(c *RunCtx, unit int) {
+	if unit%6 == 1 {
+		switch v, d := smtpStallProbe(c.Seed*1000 + int64(unit)); v {
+		case "violated":
+			c.Stats.Violations = append(c.Stats.Violations, sim.VioRec{Violation: *vio("C20", "mail-sender-waits-for-another-clients-smtp-dialogue", "%s", d), Index: unit})
+			return
+		case "held":
+			c.Stats.Count("smtp-stall-probes-held")
+		default:
+			c.Stats.Inconclusive = append(c.Stats.Inconclusive, "smtp stall probe: "+d)
+			return
+		}
+	}
 	r := Rng(c.Seed, "C20", unit)
 	useSMTP := unit%2 == 1
 	jsonMode := (unit/2)%2 == 1
@@ -1067,11 +1152,11 @@ func C20RaceReports(scratch string) (lib []string, harnessOnly int, total int) {
 func init() {
 	register(&Check{
 		ID: "C20", Level: "exploration",
-		Rule:  "-race build. One initialised instance behind a real net/http server on loopback, shipped defaults everywhere (router, body reader, responder, redirector, error handler, defaults.Logger on a locked writer, defaults.LogMailer on a locked writer in even units and defaults.SMTPMailer talking to an in-process fake SMTP server in odd units), MailNoGoroutine=false so the library's own mail goroutines run. A Localizer that translates every text into the language the request asks for (Accept-Language → request context; three languages spread over the clients; the marker of a client's own language is canonicalised, any other language's marker is a difference); the subject of every mail a client waits for is part of its transcript. 4/16/48 clients, each with its own account and cookie jar, run the script register → login-unconfirmed → confirm (token read from the mail) → wrong login → login(rm) → protected → TOTP setup + 4x QR image (pixels must encode this session's own secret) → otp add → logout → otp login → otp replay → logout → recover start → recover end (token from the mail) → old password → new password(rm) → remember re-auth → protected → logout → protected, concurrently (form mode in half of the units, JSON/API mode — JSON bodies in, JSON 'redirects' out — in the other half), with seeded yields/µs-sleeps injected at every storer and session-store operation and at SMTP accept. Oracles: (1) zero race-detector reports with a frame in github.com/volatiletech/authboss/v3 (GORACE halt_on_error=0 log_path, blocks counted from the logs, deduplicated by the innermost library frame pair); a report without a library frame makes the run inconclusive; (2) every client's transcript (status, Location, content type, body, its server-side session, jar keys, its token-row count, its own storage row after every step; identifiers/tokens/hashes/timestamps canonicalised) equals the transcript of the same script run alone against a fresh instance; (3) 8 anonymous clients x 120 requests refused concurrently by ONE redirect-mode access middleware must each be sent to the login page with their own path and query; (4) the C11 handler programs run in 8 goroutines concurrently; (5) 8 cookie-only browsers rotate their remember cookies 60 (thorough: 400) times each at once: every cookie names its own account, every nonce is handed out once; (6) the library logs no error under concurrency that it does not log when the script runs alone; (7) in the LogMailer's output the writes of each Mailer.Send call are contiguous (two users' messages never mix). distinct_nontrivial = distinct interleaving signatures (hash of the global order of storer operations by account).",
+		Rule:  "-race build. One initialised instance behind a real net/http server on loopback, shipped defaults everywhere (router, body reader, responder, redirector, error handler, defaults.Logger on a locked writer, defaults.LogMailer on a locked writer in even units and defaults.SMTPMailer talking to an in-process fake SMTP server in odd units), MailNoGoroutine=false so the library's own mail goroutines run. A Localizer that translates every text into the language the request asks for (Accept-Language → request context; three languages spread over the clients; the marker of a client's own language is canonicalised, any other language's marker is a difference); the subject of every mail a client waits for is part of its transcript. 4/16/48 clients, each with its own account and cookie jar, run the script register → login-unconfirmed → confirm (token read from the mail) → wrong login → login(rm) → protected → TOTP setup + 4x QR image (pixels must encode this session's own secret) → otp add → logout → otp login → otp replay → logout → recover start → recover end (token from the mail) → old password → new password(rm) → remember re-auth → protected → logout → protected, concurrently (form mode in half of the units, JSON/API mode — JSON bodies in, JSON 'redirects' out — in the other half), with seeded yields/µs-sleeps injected at every storer and session-store operation and at SMTP accept. Oracles: (1) zero race-detector reports with a frame in github.com/volatiletech/authboss/v3 (GORACE halt_on_error=0 log_path, blocks counted from the logs, deduplicated by the innermost library frame pair); a report without a library frame makes the run inconclusive; (2) every client's transcript (status, Location, content type, body, its server-side session, jar keys, its token-row count, its own storage row after every step; identifiers/tokens/hashes/timestamps canonicalised) equals the transcript of the same script run alone against a fresh instance; (3) 8 anonymous clients x 120 requests refused concurrently by ONE redirect-mode access middleware must each be sent to the login page with their own path and query; (4) the C11 handler programs run in 8 goroutines concurrently; (5) 8 cookie-only browsers rotate their remember cookies 60 (thorough: 400) times each at once: every cookie names its own account, every nonce is handed out once; (6) the library logs no error under concurrency that it does not log when the script runs alone; (7) in the LogMailer's output the writes of each Mailer.Send call are contiguous (two users' messages never mix); (8) SMTP stall probe (every 6th unit): the relay holds the dialogue of one client's mail; a second client's recovery mail must reach the relay meanwhile — violated when 25 consecutive goroutine dumps show a sender waiting in sync.(*Mutex).Lock below SMTPMailer.Send while another sits in net/smtp below the same function (stack evidence, not a deadline); anything else is inconclusive. distinct_nontrivial = distinct interleaving signatures (hash of the global order of storer operations by account).",
 		Units: func(t string) int { return tierN(t, 12, 120) },
 		Run:   c20Unit,
 		Floors: func(t string) map[string]int {
-			return map[string]int{"client-scripts": 60, "storer-ops": 3000, "account-switches-in-global-order": 500, "concurrent-client-state-programs": 5000, "concurrent-refusals": 5000}
+			return map[string]int{"client-scripts": 60, "storer-ops": 3000, "account-switches-in-global-order": 500, "concurrent-client-state-programs": 5000, "concurrent-refusals": 5000, "smtp-stall-probes-held": 2}
 		},
 		Assumptions: []string{"the race detector only sees accesses that actually happen in a run; schedules are those the Go scheduler plus injected yields produce", "bcrypt cost 4; no 2FA enrolment in the script (cost-10 x10 hashing under -race)"},
 	})
